@@ -185,6 +185,7 @@ def units(tier, seed):
         out.append(("factorization-range", {"lo": -2 + i * ft // 4, "hi": -2 + (i + 1) * ft // 4}))
     out.append(("factorization-built", {"examples": 600 if q else 12000}))
     out.append(("gcdlcm", {"examples": 3000 if q else 60000}))
+    out.append(("faults", {"jobset": 'nt', "arg": None, "examples": 40 if tier == "quick" else 1500, "triples": 400 if tier == "quick" else 20000}))
     return out
 
 
@@ -222,6 +223,10 @@ def history(ctx):
 
 
 def run_unit(ctx, name, **kw):
+    if name == "faults":
+        from . import faults
+        faults.run_set(ctx, **kw)
+        return
     if name == "history":
         history(ctx)
         return
@@ -373,6 +378,10 @@ def run_unit(ctx, name, **kw):
 
 
 def replay(ctx, case):
+    if case.get("kind") == "fault-history":
+        from . import faults
+        faults.replay(ctx, case)
+        return
     if case.get("fn") == "history" or case.get("why") == "history":
         history(ctx)
         return
